@@ -184,6 +184,10 @@ func crashFrame(stderr string) string {
 	if i < 0 {
 		return ""
 	}
+	if strings.Contains(stderr[i:], "panic: WEDGE") {
+		// which goroutine the watchdog happened to list first varies; the class is the wedge
+		return "WEDGE"
+	}
 	m := frameRe.FindStringSubmatch(stderr[i:])
 	if m == nil {
 		return "unknown-frame"
@@ -911,6 +915,18 @@ func check(args []string) int {
 			}
 		}
 		if exit == 0 {
+			return 2
+		}
+	}
+	if exit == 0 && len(all) >= 1000 && len(founds) == 0 {
+		var starved []string
+		for _, k := range requiredProbes[prop] {
+			if probes[k] == 0 && faults[k] == 0 {
+				starved = append(starved, k)
+			}
+		}
+		if len(starved) > 0 {
+			fmt.Printf("HARNESS-ERROR probe starvation: counters %v stayed at 0 over %d runs (the workload no longer reaches these conditions)\n", starved, len(all))
 			return 2
 		}
 	}
